@@ -236,5 +236,7 @@ class PositiveWaveFunction(WaveFunctionBase):
             num_hidden=len(state_dict["rbm_am"]["hidden_bias"]),
             gpu=gpu,
         )
+        if hasattr(location, "seek"):
+            location.seek(0)  # an open file was read above; read it again from the start
         wvfn.load(location)
         return wvfn
